@@ -21,8 +21,13 @@ from vq.refs import c15_geometry as ref
 # ---- tolerances (justification: measured clean-tree errors, see vq/metas/c15.py) ----------------
 TOL_COORD = 1e-9  # px, float64 closed form; measured <= 2e-14
 RTOL_WSUM = 1e-4  # float32 accumulators; measured <= 3e-7
-TOL_CENTROID = 1e-3  # px, float32 map; measured <= 2e-5
-TOL_KNOT = 5e-3  # px, float32 images -> complex64 correlation; measured <= 2.9e-4 (upsample 1), 1.2e-5 (2, 8)
+TOL_CENTROID = 1e-4  # px, float32 map; measured <= 7e-8
+# knots of an identical stack: zero to within the rounding noise of the correlation quantem computes.
+# align_translation correlates float32 canvases (complex64 FFTs), so the sub-pixel vertex of the
+# zero-lag peak is only defined to ~ eps32 * peak / curvature px; ref.xcorr_noise_px computes that figure
+# in float64 from the warped image.  Measured: movement <= 0.93 * that figure over 1200 stacks.
+KNOT_NOISE_FACTOR = 20.0
+TOL_KNOT_FLOOR = 1e-6  # px
 IMG_ATOL = 2e-5  # float32 round-off of values in [0, 2]
 # |d image / d shift| / value range, for a uniform shift of all knots (derivation in vq/metas/c15.py):
 IMG_LIP_INTERIOR = 10.0  # where the KDE count is >= 0.5 before the call; measured <= 1.2
@@ -128,7 +133,7 @@ def check(ctx, case):
     if warped0.ndim != 3 or warped0.shape[0] != n:
         raise core.Violation("images_warped has shape %s for a stack of %d" % (warped0.shape, n), case)
     H, W = int(warped0.shape[1]), int(warped0.shape[2])
-    metrics = {"coord": 0.0, "wsum": 0.0, "centroid": 0.0, "knot": 0.0, "img_interior": 0.0}
+    metrics = {"coord": 0.0, "wsum": 0.0, "centroid": 0.0, "knot": 0.0, "knot_over_noise": 0.0, "img_interior_over_tol": 0.0, "img_any_over_tol": 0.0}
 
     for i in range(n):
         # ---- (1) coordinates of the initial knots == closed form ----------------------------------
@@ -191,6 +196,10 @@ def check(ctx, case):
             dc.align_translation(upsample_factor=au, show_merged=False)
             knots1 = [np.asarray(kn, dtype=np.float64) for kn in dc.knots]
             warped1 = np.asarray(dc.images_warped.array)
+        noise = ref.xcorr_noise_px(warped0[0])
+        tol_knot = max(TOL_KNOT_FLOOR, KNOT_NOISE_FACTOR * noise)
+        if tol_knot > 0.05:
+            ctx.count("fixed_point_allowance>0.05px")
         moved = 0.0
         for i in range(n):
             if knots1[i].shape != knots0[i].shape:
@@ -199,12 +208,14 @@ def check(ctx, case):
                 raise core.Violation("image %d: knots are not finite after align_translation(upsample_factor=%d)" % (i, au), case)
             moved = max(moved, core.maxerr(knots1[i], knots0[i]))
         metrics["knot"] = moved
-        if not moved <= TOL_KNOT:
+        metrics["knot_over_noise"] = moved / noise
+        if not moved <= tol_knot:
             i = int(np.argmax([core.maxerr(a, b) for a, b in zip(knots1, knots0)]))
             d = (knots1[i] - knots0[i]).reshape(2, -1)
             raise core.Violation(
                 "%d identical %dx%d images, scan direction %g deg, %d knot(s): align_translation(upsample_factor=%d) moved the knots "
-                "of image %d by (%.4f, %.4f) px (expected no movement)" % (n, R, C, angles[0], k, au, i, d[0, 0], d[1, 0]),
+                "of image %d by (%.3g, %.3g) px (expected no movement; rounding allowance %.2g px)"
+                % (n, R, C, angles[0], k, au, i, d[0, 0], d[1, 0], tol_knot),
                 case,
             )
         rng_v = float(max(warped0.max(), images[0].max()) - min(warped0.min(), images[0].min()))
@@ -216,8 +227,7 @@ def check(ctx, case):
                 continue
             tol_img = IMG_ATOL + lip * rng_v * moved
             derr = float(d.max())
-            if sel is not None:
-                metrics["img_interior"] = derr
+            metrics["img_interior_over_tol" if sel is not None else "img_any_over_tol"] = derr / tol_img
             if not derr <= tol_img:
                 raise core.Violation(
                     "identical stack: images_warped changed by %.3g %s (tolerance %.3g) in align_translation(upsample_factor=%d) "
@@ -234,7 +244,7 @@ def _body(ctx, case):
         ctx.extra["max_" + k] = max(ctx.extra.get("max_" + k, 0.0), float(v))
     target(float(np.log10(m["coord"] + 1e-18)), label="log10 coordinate error")
     if case["same"]:
-        target(float(np.log10(m["knot"] + 1e-18)), label="log10 knot movement")
+        target(float(np.log10(m["knot_over_noise"] + 1e-18)), label="log10 knot movement / rounding noise")
 
 
 def search(ctx):
